@@ -902,6 +902,24 @@ func c20RoundE(c *Ctx, w *World) {
 	{
 		dm := w.Fn("core", "TxPool", "demoteUnexecutables")
 		c.sawFunc(fname(dm))
+		// the per-account body may live in a method split off from the loop
+		hasFilter := func(fn *ssa.Function) bool {
+			for _, ci := range callInstrs(fn) {
+				if o := calleeObj(ci); o != nil && o.Name() == "Filter" && recvName(o) == "txList" {
+					return true
+				}
+			}
+			return false
+		}
+		if !hasFilter(dm) {
+			for _, ci := range callInstrs(dm) {
+				if g := ci.Common().StaticCallee(); g != nil && g.Pkg == dm.Pkg && g.Blocks != nil && hasFilter(g) && onlyCalledFrom(w, g, dm) {
+					dm = g
+					c.sawFunc(fname(dm))
+					break
+				}
+			}
+		}
 		var filter ssa.Instruction
 		var nonceCalls []ssa.Value
 		for _, ci := range callInstrs(dm) {
@@ -945,10 +963,10 @@ func c20RoundE(c *Ctx, w *World) {
 		}
 		c.sites++
 		if filter == nil || len(gets) == 0 {
-			c.Fail(fname(dm)+"#front-gap-test-on-every-path", dm.Pos(), "the balance filter or the look-up of the transaction with the account's nonce is no longer found in demoteUnexecutables")
+			c.Fail("(core.TxPool).demoteUnexecutables#front-gap-test-on-every-path", dm.Pos(), "the balance filter or the look-up of the transaction with the account's nonce is no longer found in demoteUnexecutables")
 		} else {
 			ok := mustPassAfter(filter, gates)
-			c.Check(fname(dm)+"#front-gap-test-on-every-path", filter.Pos(), ok, ifelse(ok, "every path from the filter passes the front-gap test", "an iteration can end after the filter without having looked for the transaction with the account's current nonce: a pending list that starts above the account nonce is kept and handed to the block builder"))
+			c.Check("(core.TxPool).demoteUnexecutables#front-gap-test-on-every-path", filter.Pos(), ok, ifelse(ok, "every path from the filter passes the front-gap test", "an iteration can end after the filter without having looked for the transaction with the account's current nonce: a pending list that starts above the account nonce is kept and handed to the block builder"))
 		}
 	}
 }
